@@ -17,4 +17,72 @@ def run(chk, b, tier):
                  "behind the shim's permute mode so that the maximal object is met at different positions of the listing. "
                  "Non-trivial: >=3 reachable objects.", permute=0.35)
     api_delay_stage(chk, b, _O.MAXOBJ_KEYS + (["reference_count"] if "C02" == "C01" else []), "C02", 6 if tier == "quick" else 150)
+    refcount_stage(chk, b, tier)
     chk.assumptions += ["reference model and generator trusted; generator self-checked against git"]
+
+
+def _refcount_case(arg):
+    """N references, N around the sizes an internal batch / queue could have; the references git lists last (and the one
+    it lists first) are the only way to the biggest blob, tree, commit and parent list. The consumer of the reference
+    listing is held back by --show-refs writing to a slow reader in half of the runs."""
+    import os, shutil
+    from .. import gen as G, run as R, parse_out as P
+    N, sz, scratch = arg
+    d = os.path.join(scratch, "refcount-%d" % N)
+    os.makedirs(d)
+    out = {"viol": [], "evals": 0, "N": N, "inconc": []}
+    try:
+        small = G.Blob(b"x\n")
+        c0 = G.Commit(G.Tree([G.Entry(G.FILE, b"f", small)]), [], msg=b"base\n")
+        m = G.Model()
+        for i in range(N - 5):
+            m.refs["refs/%s/n%05d" % (["heads", "tags", "remotes/o"][i % 3], i)] = c0
+        big = G.Commit(G.Tree([G.Entry(G.FILE, b"big", G.Blob(b"B" * 100000))]), [c0], msg=b"biggest blob\n")
+        widetree = G.Commit(G.Tree([G.Entry(G.FILE, b"e%03d" % j, small) for j in range(50)]), [c0], msg=b"widest tree\n")
+        sides = [G.Commit(c0.tree, [c0], cts=1400000000 + j, msg=b"side %d\n" % j) for j in range(3)]
+        octo = G.Commit(c0.tree, sides, msg=b"most parents\n")
+        longmsg = G.Commit(c0.tree, [c0], msg=b"biggest commit " + b"m" * 9000 + b"\n")
+        first = G.Commit(G.Tree([G.Entry(G.FILE, b"first", G.Blob(b"first only\n"))]), [c0], msg=b"first\n")
+        m.refs["refs/zzz/w"] = big
+        m.refs["refs/zzz/x"] = widetree
+        m.refs["refs/zzz/y"] = octo
+        m.refs["refs/zzz/z"] = longmsg
+        m.refs["refs/aaa/first"] = first
+        gitdir = G.write_model(m, os.path.join(d, "repo"), packed_refs=True)
+        ex = _O.compute(list(m.refs.values()))
+        for k, slow in enumerate([None, (4096, 2, 300), (1024, 1, 500), (65536, 10, 800)]):
+            argv = ["--json", "--no-progress"] + (["--show-refs"] if slow or k == 0 else [])
+            r = R.sizer(sz, gitdir, argv, env={"GOMAXPROCS": ["16", "1", "2", "4"][k]}, tmpdir=d, timeout=300, slow_stderr=slow)
+            out["evals"] += 1
+            if r.timed_out:
+                out["inconc"].append("watchdog fired in a reference-count case")
+                continue
+            if r.rc != 0:
+                out["viol"].append(("run-failed", {"N": N, "argv": argv, "stderr": r.err[-300:]}))
+                continue
+            js, _ = P.parse_json(r.out)
+            bad = _O.compare_numeric(ex, js or {}, _O.MAXOBJ_KEYS + ["unique_commit_count"])
+            if js and js.get("reference_count") != N:
+                bad = (bad or []) + [["reference_count", N, js.get("reference_count")]]
+            if bad:
+                out["viol"].append(("maxima-differ-from-model", {"N": N, "argv": argv, "slow_stderr_reader": slow, "diffs": bad[:6]}))
+    finally:
+        shutil.rmtree(d, ignore_errors=True)
+    return out
+
+
+def refcount_stage(chk, b, tier):
+    from .. import run as R
+    ns = [255, 256, 257, 1023, 1024, 1025, 1030, 1040, 2049, 2064, 4100]
+    if tier != "quick":
+        ns += list(range(1026, 1030)) + list(range(1031, 1040)) + [511, 513, 3073, 3088, 8193, 8200, 16385, 16400, 65537, 65552]
+    res = R.pmap(_refcount_case, [(N, b.sizer(), b.scratchdir()) for N in ns], chk=chk)
+    for r in res:
+        chk.count(r["evals"])
+        for t in r["inconc"]:
+            chk.inconc(t)
+        for clause, det in r["viol"]:
+            chk.violation("C02/reference-count-at-batch-boundaries/" + clause, det)
+        if r["evals"]:
+            chk.nontrivial(("refcount", r["N"]))
+    chk.cov["reference_count_cases"] = ns
